@@ -312,6 +312,18 @@ impl Program {
             )
             .with_context(|| stack.borrow().to_string());
 
+        #[cfg(mscript_verif)]
+        if let Some(dump_path) = std::env::var_os("MSCRIPT_VERIF_DUMP") {
+            let files = self.files_in_use.borrow();
+            let mut paths: Vec<&Rc<String>> = files.keys().collect();
+            paths.sort();
+            let mut dump = String::new();
+            for path in paths {
+                dump.push_str(&crate::verif::dump_file(&files[path]));
+            }
+            let _ = std::fs::write(dump_path, dump);
+        }
+
         if let Err(e) = main_ret {
             stdout().lock().flush()?;
             eprintln!("\n******* MSCRIPT INTERPRETER FATAL RUNTIME ERROR *******\nCall stack trace:\n{e:?}\n\nPlease report this at https://github.com/mrodz/mscript/issues/new/choose\n");
